@@ -88,6 +88,25 @@ func Generate(r *sim.Rng, prop, tier string, idx int) *sim.Case {
 		}
 		c.Tasks = append(c.Tasks, task)
 	}
+	// pattern: fill more than one segment, free a whole earlier segment, reopen
+	if c.Mode == "rand" && c.Knobs["segments"] >= 2 && c.Knobs["bs"] <= 8 && r.Chance(1, 4) {
+		per := 8 * int(c.Knobs["bs"])
+		task := sim.Task{Name: fmt.Sprintf("t%d", len(c.Tasks))}
+		n := per + 1 + r.Intn(per)
+		for i := 0; i < n; i++ {
+			task.Ops = append(task.Ops, sim.Op{K: "arrange"})
+		}
+		task.Ops = append(task.Ops, sim.Op{K: "freeseg", N: int64(r.Intn(int(c.Knobs["segments"]) - 1))})
+		task.Ops = append(task.Ops, sim.Op{K: "snap"})
+		task.Ops = append(task.Ops, sim.Op{K: "arrange"})
+		task.Ops = append(task.Ops, sim.Op{K: "snap"})
+		if r.Chance(1, 2) {
+			c.Tasks = []sim.Task{task} // alone: the other tasks' allocations would keep the segment busy
+			c.Tasks[0].Name = "t0"
+		} else {
+			c.Tasks = append(c.Tasks, task)
+		}
+	}
 	if r.Chance(1, 4) {
 		nf := 1 + r.Intn(2)
 		for i := 0; i < nf; i++ {
